@@ -54,7 +54,7 @@ def classify_known(rec, gmodel, known_ids):
         last = (r2.get("results") or [{}])[-1]
         if last.get("ok"):
             got = "(" + " ".join("(" + " ".join(sqlrun.cell_sx(x) for x in row) + ")" for row in last["rows"]) + ")"
-            v = common.run_model(gmodel, "x", ["(check %s %s %s)" % (rec["dbsx"], q.sx, got)])[0]
+            v = common.run_model(gmodel, "x", ["(check %s %s %s)" % (rec["dbsx"], sqlast.expand_text(q.sx), got)])[0]
             if v == "OK":
                 return "optimizer-internal-error"
             for cid, vsx in sqlast.variants(q.sx).items():
